@@ -110,9 +110,83 @@ pub proof fn lemma_member_all(c: bool, items0: Seq<BracketItem>, q0: bool, is_op
     }
 }
 
-/// inner expressions `[.x.]` `[=x=]` `[:x:]` after the `[`: the atom and the number of characters consumed.
-/// Left uninterpreted: `BracketAtom::parse_inner` builds `String`s, outside Verus's subset; its contract is ASSUMED.
-pub uninterp spec fn ref_inner(s: Seq<PatternChar>) -> Option<(BracketAtom, int)>;
+// ---- inner expressions `[.x.]` `[=x=]` `[:x:]` (XBD 9.3.5 items 4-6) -------------------------------------------
+// After the opening `[` and the delimiter character d (one of . = :), the expression extends to the FIRST
+// occurrence of `d]` (both unquoted); what lies between is its content, taken literally.  Without such a `d]`
+// there is no inner expression (and the `[` is an ordinary member of the enclosing bracket expression).
+
+use super::itax::string_of;
+/// the pair `d]` sits at positions k, k+1 of t
+pub open spec fn closes_at(t: Seq<PatternChar>, d: char, k: int) -> bool {
+    0 <= k && k + 1 < t.len() && t[k] == PatternChar::Normal(d) && t[k + 1] == PatternChar::Normal(']')
+}
+pub open spec fn has_close(t: Seq<PatternChar>, d: char) -> bool { exists|k: int| closes_at(t, d, k) }
+/// the first such position
+pub open spec fn first_close(t: Seq<PatternChar>, d: char) -> int {
+    choose|k: int| closes_at(t, d, k) && forall|j: int| 0 <= j < k ==> !closes_at(t, d, j)
+}
+pub open spec fn inner_content(t: Seq<PatternChar>, k: int) -> Seq<char> {
+    t.subrange(0, k).map_values(|pc: PatternChar| pc.char_value_spec())
+}
+pub open spec fn mk_inner(d: char, content: Seq<char>) -> BracketAtom {
+    if d == '.' { BracketAtom::CollatingSymbol(string_of(content)) }
+    else if d == '=' { BracketAtom::EquivalenceClass(string_of(content)) }
+    else { BracketAtom::CharClass(string_of(content)) }
+}
+/// the atom and the number of characters consumed (delimiter + content + `d]`), seen from just after the `[`
+pub open spec fn ref_inner(s: Seq<PatternChar>) -> Option<(BracketAtom, int)> {
+    if s.len() == 0 { None } else {
+        let t = s.skip(1);
+        if s[0] == PatternChar::Normal('.') || s[0] == PatternChar::Normal('=') || s[0] == PatternChar::Normal(':') {
+            let d = s[0].char_value_spec();
+            if has_close(t, d) { Some((mk_inner(d, inner_content(t, first_close(t, d))), first_close(t, d) + 3)) } else { None }
+        } else { None }
+    }
+}
+/// the position found by scanning is the first one
+pub proof fn lemma_first_close(t: Seq<PatternChar>, d: char, k: int)
+    requires closes_at(t, d, k), forall|j: int| 0 <= j < k ==> !closes_at(t, d, j),
+    ensures has_close(t, d), first_close(t, d) == k,
+{
+    let f = first_close(t, d);
+    assert(closes_at(t, d, f) && forall|j: int| 0 <= j < f ==> !closes_at(t, d, j));
+    if f < k { assert(!closes_at(t, d, f)); }
+    if k < f { assert(!closes_at(t, d, k)); }
+}
+/// what the scanning loop of `parse_inner` has when it returns: `full` is everything read after the delimiter, its
+/// last two characters are the first `d]`
+pub proof fn lemma_inner_found(s: Seq<PatternChar>, full: Seq<PatternChar>, content: Seq<char>)
+    requires
+        s.len() > 0,
+        s[0] == PatternChar::Normal('.') || s[0] == PatternChar::Normal('=') || s[0] == PatternChar::Normal(':'),
+        2 <= full.len() <= s.len() - 1,
+        full == s.skip(1).subrange(0, full.len() as int),
+        full[full.len() - 2] == s[0],
+        full[full.len() - 1] == PatternChar::Normal(']'),
+        forall|j: int| 0 <= j && j + 1 < full.len() - 1 ==> !closes_at(s.skip(1), s[0].char_value_spec(), j),
+        content == full.subrange(0, full.len() - 2).map_values(|pc: PatternChar| pc.char_value_spec()),
+    ensures
+        ref_inner(s) == Some((mk_inner(s[0].char_value_spec(), content), full.len() as int + 1)),
+        s.skip(full.len() as int + 1) == s.skip(1).skip(full.len() as int),
+{
+    let t = s.skip(1);
+    let d = s[0].char_value_spec();
+    let k = full.len() - 2;
+    assert(full[k] == t[k]);
+    assert(full[k + 1] == t[k + 1]);
+    assert(closes_at(t, d, k));
+    lemma_first_close(t, d, k);
+    assert(t.subrange(0, k) =~= full.subrange(0, k));
+    assert(s.skip(full.len() as int + 1) =~= t.skip(full.len() as int));
+}
+/// `value.into_iter().map(PatternChar::char_value).collect()` into a `String` behind a contract (rewrite rule
+/// tokens-to-helper): the characters of the pattern characters, in order.  ASSUMED; the body is what the code called.
+#[verifier::external_body]
+pub fn verif_collect_chars(value: Vec<PatternChar>) -> (r: String)
+    ensures r@ == value@.map_values(|pc: PatternChar| pc.char_value_spec()),
+{
+    value.into_iter().map(PatternChar::char_value).collect()
+}
 
 /// the rest of a bracket expression (after the opening `[`): the bracket and what follows it, or None if unclosed
 pub open spec fn ref_bracket(s: Seq<PatternChar>, st: RState) -> Option<(RState, Seq<PatternChar>)>
